@@ -123,7 +123,48 @@ def public_returning_function():
                 [("o1", "P0", "m"), ("o2", "P0", "r"), ("o3", "P1", "c")], ["public-function"])
 
 
+def literal_param_fold():
+    """an operator applied to literal-typed parameters only is folded on the placeholder 0 (known finding C04/C06)"""
+    CI = S("Const", "Int")
+    g = {"k": "def", "f": "g", "params": [("k", CI), ("j", CI), ("x", SI)], "ret": SI,
+         "body": [{"k": "bin", "x": "kj", "op": "OAdd", "a": "k", "b": "j"},
+                  {"k": "bin", "x": "r", "op": "OMul", "a": "kj", "b": "x"}], "res": "r", "form": "decorator"}
+    return prog([g, {"k": "lit", "x": "c1", "b": "Int", "v": 2}, {"k": "lit", "x": "c2", "b": "Int", "v": 3}, inp("x", "x", SI),
+                 {"k": "call", "x": "r", "f": "g", "args": ["c1", "c2", "x"], "kwargs": []}],
+                [("o", "P0", "r")], ["literal-param-fold"])
+
+
+def kwargs_call():
+    """keyword arguments of a nada function call are dropped (known finding C04/C11)"""
+    f = {"k": "def", "f": "sub", "params": [("x", SI), ("y", SI)], "ret": SI,
+         "body": [{"k": "bin", "x": "d", "op": "OSub", "a": "x", "b": "y"}], "res": "d", "form": "decorator"}
+    return prog([f, inp("a", "a", SI), inp("b", "b", SI),
+                 {"k": "call", "x": "r", "f": "sub", "args": ["a"], "kwargs": [("y", "b")]}],
+                [("o", "P0", "r")], ["kwargs"])
+
+
+def noncommutative_mix():
+    return prog([inp("a", "a", SI), inp("b", "b", SI), inp("u", "u", PU), inp("c", "c", SI, "P1"),
+                 {"k": "bin", "x": "s", "op": "OSub", "a": "a", "b": "b"}, {"k": "bin", "x": "d", "op": "ODiv", "a": "b", "b": "a"},
+                 {"k": "bin", "x": "sh", "op": "OLShift", "a": "a", "b": "u"}, {"k": "bin", "x": "lt", "op": "OLt", "a": "s", "b": "d"},
+                 {"k": "ifelse", "x": "ie", "c": "lt", "a": "a", "b": "c"}, {"k": "random", "x": "r1", "b": "Int"},
+                 {"k": "random", "x": "r2", "b": "Int"}, {"k": "bin", "x": "rr", "op": "OSub", "a": "r1", "b": "r1"},
+                 {"k": "bin", "x": "r3", "op": "OSub", "a": "r1", "b": "r2"}, {"k": "bin", "x": "tp", "op": "OTruncPr", "a": "sh", "b": "u"}],
+                [("o1", "P0", "ie"), ("o2", "P0", "rr"), ("o3", "P1", "r3"), ("o4", "P1", "tp")], ["non-commutative", "sharing"])
+
+
+def function_body_literal():
+    """a function whose body uses literals and an input that appear nowhere else"""
+    f = {"k": "def", "f": "scale", "params": [("e", SI)], "ret": SI,
+         "body": [{"k": "lit", "x": "three", "b": "Int", "v": 3}, {"k": "bin", "x": "m", "op": "OMul", "a": "e", "b": "three"},
+                  inp("bias", "bias", SI, "P1"), {"k": "bin", "x": "r", "op": "OAdd", "a": "m", "b": "bias"}],
+         "res": "r", "form": "decorator"}
+    return prog([inp("a", "a", ("arr", SI, 3)), f, {"k": "map", "x": "m", "a": "a", "f": "scale"},
+                 inp("x", "x", SI), {"k": "call", "x": "c", "f": "scale", "args": ["x"], "kwargs": []}],
+                [("o1", "P0", "m"), ("o2", "P0", "c")], ["function-body-literal"])
+
+
 def all_families():
     return [nested_capture(), reduce_computed_initial(), shared_function_two_sites(), function_calls_function(),
             compound_types(), array_param(), size_zero_array(), helper_from_two_functions(), same_value_two_types(),
-            map_zip_mixed(), public_returning_function()]
+            map_zip_mixed(), public_returning_function(), literal_param_fold(), kwargs_call(), noncommutative_mix(), function_body_literal()]
